@@ -57,7 +57,7 @@ theorem sumTo_lsum {α : Type} (N : Nat) (l : List α) (F : α → Nat → K) :
     rw [sumTo_add, ih]
 
 theorem lsum_map_eq_sumTo {α : Type} (l : List α) (f : α → K) :
-    lsum (l.map f) = sumTo l.length (fun i => match l[i]? with | some c => f c | none => 0) := by
+    lsum (l.map f) = sumTo l.length (fun i => ((l[i]?).map f).getD 0) := by
   induction l with
   | nil => simp [lsum, sumTo]
   | cons a t ih =>
@@ -662,5 +662,342 @@ theorem edgeUnit_sum_wire (e : Edge K) (N : Nat) (u : Nat → K) (hc : e.cpt = n
     sumTo N (fun idx => edgeUnit e idx * u idx) = 0 := by
   simp only [edgeUnit, hc, zero_mul]
   exact sumTo_zero N
+
+
+/-! ### KCL by telescoping: loop currents leave every node as they enter it -/
+
+/-- indicator of circuit node `k` (a dummy is wired to the node it stands for) -/
+def nodeInd (k : Nat) : GNode → K
+  | .real n => if n = k then 1 else 0
+  | .dummy _ n => if n = k then 1 else 0
+
+/-- indicator(second node) − indicator(first node) of component number `idx` -/
+def cptW (cs : List (Cpt K)) (k idx : Nat) : K :=
+  match cs[idx]? with
+  | some c =>
+    match nodes2 c with
+    | some (n0, n1) => (if n1 = k then 1 else 0) - (if n0 = k then 1 else 0)
+    | none => 0
+  | none => 0
+
+theorem pair_w (kind : Kind) (s : K) (cs : List (Cpt K)) (hdef : ∀ c ∈ cs, MeshOk kind s c) (k : Nat)
+    (pq : GNode × GNode) (hadj : hasEdge (buildGraph cs) pq.1 pq.2 = true) :
+    sumTo cs.length (fun i => pairSgn (buildGraph cs) pq i * cptW cs k i) = nodeInd k pq.2 - nodeInd k pq.1 := by
+  rw [pairSgn_sum _ _ _ _ (fun i c h => (component_lt cs _ _ i c h).2)]
+  obtain ⟨p, q⟩ := pq
+  simp only at hadj ⊢
+  obtain ⟨e, hfind, hmem, hj⟩ := find_joins (buildGraph cs) p q hadj
+  have hcomp : component (buildGraph cs) p q = e.cpt := by simp [component, hfind]
+  have heok := buildGraph_ok2 cs e hmem
+  rw [joins_iff] at hj
+  rw [hcomp]
+  cases hc : e.cpt with
+  | none =>
+    simp only [EdgeOK2, hc] at heok
+    obtain ⟨d, n, ha, hb⟩ := heok
+    rcases hj with ⟨h1, h2⟩ | ⟨h1, h2⟩ <;>
+      (rw [← h1, ← h2, ha, hb]; simp [nodeInd])
+  | some ic =>
+    obtain ⟨idx, c⟩ := ic
+    simp only [EdgeOK2, hc] at heok
+    obtain ⟨hcs, n0, n1, hn, hea, heb⟩ := heok
+    obtain ⟨_, n0', n1', hn', hne⟩ := meshOk_nodes kind s c (hdef c (List.mem_of_getElem? hcs))
+    rw [hn] at hn'
+    simp only [Option.some.injEq, Prod.mk.injEq] at hn'
+    obtain ⟨rfl, rfl⟩ := hn'
+    have hw : cptW cs k idx = (if n1 = k then 1 else 0) - (if n0 = k then 1 else 0) := by
+      simp [cptW, hcs, hn]
+    have hbn : nodeInd (K := K) k e.b = if n1 = k then 1 else 0 := by
+      rcases heb with h | ⟨d, h⟩ <;> simp [h, nodeInd]
+    have hbne : e.b ≠ GNode.real n0 := by
+      rcases heb with h | ⟨d, h⟩
+      · rw [h]; simp; exact fun h' => hne h'.symm
+      · rw [h]; simp
+    simp only [hn, hw]
+    rcases hj with ⟨h1, h2⟩ | ⟨h1, h2⟩
+    · rw [← h1, ← h2, hbn, hea]
+      simp [nodeInd]
+    · rw [← h1, ← h2, hbn, if_neg hbne, hea]
+      simp [nodeInd]
+
+/-- around a simple cycle of the graph the node indicator rises sum to zero -/
+theorem loop_w (kind : Kind) (s : K) (cs : List (Cpt K)) (hdef : ∀ c ∈ cs, MeshOk kind s c) (k : Nat)
+    (loop : List GNode) (hcyc : isSimpleCycle (buildGraph cs) loop = true) :
+    walkRise cs.length (buildGraph cs) (cptW cs k) (loopPairs loop) = 0 := by
+  rw [walkRise_eq]
+  rw [lsum_map_congr _ _ (fun pq => nodeInd k pq.2 - nodeInd k pq.1)
+    (fun pq hpq => pair_w kind s cs hdef k pq (adjacent_of_cycle _ loop hcyc pq hpq))]
+  cases loop with
+  | nil => simp [loopPairs, lsum]
+  | cons a t =>
+    simp only [loopPairs]
+    rw [pairsFrom_telescope (nodeInd k) a a t, sub_self]
+
+/-- **KCL by telescoping**: the branch currents that mesh currents on simple cycles induce, weighted with the
+    node indicator differences, sum to zero -- every loop current that enters node `k` leaves it -/
+theorem kcl_telescope (kind : Kind) (s : K) (cs : List (Cpt K)) (hdef : ∀ c ∈ cs, MeshOk kind s c)
+    (loops : List (List GNode)) (hcyc : ∀ loop ∈ loops, isSimpleCycle (buildGraph cs) loop = true)
+    (im : Nat → K) (k : Nat) :
+    sumTo cs.length (fun idx => branchJ (buildGraph cs) loops im idx * cptW cs k idx) = 0 := by
+  simp only [branchJ]
+  have h1 : ∀ idx, idx < cs.length →
+      lsum (((List.range loops.length).zip loops).map (fun ml => inc (buildGraph cs) (loopPairs ml.2) idx * im ml.1))
+        * cptW cs k idx
+      = lsum (((List.range loops.length).zip loops).map
+          (fun ml => im ml.1 * (inc (buildGraph cs) (loopPairs ml.2) idx * cptW cs k idx))) := by
+    intro idx _
+    rw [lsum_map_mul_right]
+    apply lsum_map_congr
+    intro x _; ring
+  rw [sumTo_congr _ _ _ h1, sumTo_lsum]
+  apply lsum_map_zero
+  intro ml hml
+  rw [sumTo_mul_left]
+  have := loop_w kind s cs hdef k ml.2 (hcyc ml.2 (List.of_mem_zip hml).2)
+  simp only [walkRise] at this
+  rw [this, mul_zero]
+
+
+/-! ### the component relation in impedance form gives the spec's laws -/
+
+/-- a component whose voltage is `z·J + v0` (`voltage_equation`) and whose branch current, if it has one, is `J`:
+    its current out of node `k` is that of a two-terminal element carrying `J`, its defining relation holds,
+    and `J` is its current by the spec -/
+theorem cpt_laws (kind : Kind) (s : K) (x : Ix → K) (c : Cpt K) (J : K) (n0 n1 : Nat) (z v0 : K)
+    (hok : MeshOk kind s c) (hn : nodes2 c = some (n0, n1)) (hvol : volEq kind s c = some (z, v0))
+    (hvd : vd x n0 n1 = z * J + v0) (hbr : ∀ m ∈ owned c, x (br m) = J) :
+    (∀ k, outflow kind s x k c = twoTerm n0 n1 k J) ∧ (∀ p ∈ laws kind s x c, p.2 = 0) ∧
+      (isV c = false → through kind s x c = J) := by
+  cases c with
+  | R a b r =>
+    simp [nodes2] at hn; obtain ⟨rfl, rfl⟩ := hn
+    simp [volEq] at hvol; obtain ⟨rfl, rfl⟩ := hvol
+    have hr := hok.2
+    have : vd x a b / r = J := by rw [hvd]; field_simp; ring
+    exact ⟨fun k => by simp [outflow, this], by simp [laws], fun _ => by simp [through, this]⟩
+  | Y a b y =>
+    simp [nodes2] at hn; obtain ⟨rfl, rfl⟩ := hn
+    simp [volEq] at hvol; obtain ⟨rfl, rfl⟩ := hvol
+    have hy := hok.2
+    have : y * vd x a b = J := by rw [hvd]; field_simp; ring
+    exact ⟨fun k => by simp [outflow, this], by simp [laws], fun _ => by simp [through, this]⟩
+  | Cap a b cc iv =>
+    simp [nodes2] at hn; obtain ⟨rfl, rfl⟩ := hn
+    obtain ⟨_, hsc, hk⟩ := hok
+    have hs : s ≠ 0 := left_ne_zero_of_mul hsc
+    have hcc : cc ≠ 0 := right_ne_zero_of_mul hsc
+    have : capCurrent kind s cc iv (vd x a b) = J := by
+      rcases hk with rfl | rfl
+      · simp [volEq] at hvol; obtain ⟨rfl, rfl⟩ := hvol
+        rw [hvd]; simp [capCurrent]; field_simp
+      · cases iv with
+        | none =>
+          simp [volEq] at hvol; obtain ⟨rfl, rfl⟩ := hvol
+          rw [hvd]; simp [capCurrent]; field_simp
+        | some iv =>
+          simp [volEq] at hvol; obtain ⟨rfl, rfl⟩ := hvol
+          rw [hvd]; simp [capCurrent]; field_simp; ring
+    exact ⟨fun k => by simp [outflow, this], by simp [laws], fun _ => by simp [through, this]⟩
+  | Ind a b m l i0 coup =>
+    simp [nodes2] at hn; obtain ⟨rfl, rfl⟩ := hn
+    obtain ⟨_, rfl, hk⟩ := hok
+    have hJ : x (br m) = J := hbr m (by simp [owned])
+    refine ⟨fun k => by simp [outflow, hJ], ?_, fun _ => by simp [through, hJ]⟩
+    intro p hp
+    cases kind with
+    | time => exact absurd rfl hk
+    | dc =>
+      simp [volEq] at hvol; obtain ⟨rfl, rfl⟩ := hvol
+      simp [laws] at hp; subst hp
+      simp only; rw [hvd]; ring
+    | lap =>
+      simp [volEq] at hvol; obtain ⟨rfl, rfl⟩ := hvol
+      simp [laws] at hp; subst hp
+      simp only [mutualDrop, List.map_nil, lsum]; rw [hvd, hJ]; ring
+    | ivp =>
+      cases i0 with
+      | none =>
+        simp [volEq] at hvol; obtain ⟨rfl, rfl⟩ := hvol
+        simp [laws] at hp; subst hp
+        simp only [mutualDrop, mutualIC, List.map_nil, lsum]; rw [hvd, hJ]; ring
+      | some i0 =>
+        simp [volEq] at hvol; obtain ⟨rfl, rfl⟩ := hvol
+        simp [laws] at hp; subst hp
+        simp only [mutualDrop, mutualIC, List.map_nil, lsum]; rw [hvd, hJ]; ring
+  | V a b m v =>
+    simp [nodes2] at hn; obtain ⟨rfl, rfl⟩ := hn
+    simp [volEq] at hvol; obtain ⟨rfl, rfl⟩ := hvol
+    have hJ : x (br m) = J := hbr m (by simp [owned])
+    refine ⟨fun k => by simp [outflow, hJ], ?_, fun h => by simp [isV] at h⟩
+    intro p hp
+    simp [laws] at hp; subst hp
+    simp only; rw [hvd]; ring
+  | _ => simp [MeshOk] at hok
+
+/-- with no branch current claimed twice, the owner of branch `m` is the component that lists it -/
+theorem ownerIdx_eq (cs : List (Cpt K)) (hwf : (cs.flatMap owned).Nodup) (idx : Nat) (c : Cpt K)
+    (hc : cs[idx]? = some c) (m : Nat) (hm : m ∈ owned c) : ownerIdx cs m = some idx := by
+  induction cs generalizing idx with
+  | nil => simp at hc
+  | cons a t ih =>
+    simp only [List.flatMap_cons, List.nodup_append] at hwf
+    obtain ⟨_, hnt, hdisj⟩ := hwf
+    simp only [ownerIdx, List.findIdx?_cons]
+    cases idx with
+    | zero =>
+      simp only [List.getElem?_cons_zero, Option.some.injEq] at hc
+      subst hc
+      simp [hm]
+    | succ j =>
+      simp only [List.getElem?_cons_succ] at hc
+      have hmt : m ∈ t.flatMap owned := List.mem_flatMap.mpr ⟨c, List.mem_of_getElem? hc, hm⟩
+      have hna : (owned a).contains m = false := by
+        by_contra h
+        simp only [Bool.not_eq_false, List.contains_iff_mem] at h
+        exact hdisj m h m hmt rfl
+      simp only [hna, Bool.false_eq_true, if_false]
+      have := ih hnt j hc
+      simp only [ownerIdx] at this
+      rw [this]; rfl
+
+
+/-! ### the solution determined by the mesh currents -/
+
+/-- mesh currents that satisfy every mesh equation: the edge rises −(z·J + v0) sum to zero around every loop -/
+theorem loops_vanish (kind : Kind) (s : K) (cs : List (Cpt K)) (loops : List (List GNode)) (im : Nat → K)
+    (hdef : ∀ c ∈ cs, MeshOk kind s c)
+    (hcyc : ∀ loop ∈ loops, isSimpleCycle (buildGraph cs) loop = true)
+    (heqs : ∀ loop ∈ loops, ∀ f, meshEq true kind s (buildGraph cs) loops loop = some f → f.eval im = 0) :
+    ∀ loop ∈ loops, walkRise cs.length (buildGraph cs) (edgeRise kind s cs (buildGraph cs) loops im)
+      (loopPairs loop) = 0 := by
+  intro loop hl
+  obtain ⟨f, hf⟩ := Option.isSome_iff_exists.mp (meshEq_isSome kind s cs loops hdef loop)
+  rw [← meshEq_rise kind s cs loops im hdef hcyc loop f hf]
+  exact heqs loop hl f hf
+
+theorem volt_meshSolution (kind : Kind) (s : K) (cs : List (Cpt K)) (loops : List (List GNode)) (im : Nat → K)
+    (cert : BasisCert K) (k : Nat) :
+    volt (meshSolution kind s cs loops im cert) k =
+      potential kind s cs loops im cert (.real k) - potential kind s cs loops im cert (.real 0) := by
+  cases k with
+  | zero => simp [volt]
+  | succ k => simp [volt, meshSolution]
+
+/-- the voltage across every component, in the solution the mesh currents determine, is `z·J + v0` -/
+theorem meshSolution_vd [DecidableEq K] (kind : Kind) (s : K) (cs : List (Cpt K)) (loops : List (List GNode))
+    (im : Nat → K) (cert : BasisCert K) (hdef : ∀ c ∈ cs, MeshOk kind s c)
+    (hbasis : checkBasis cs loops cert = true)
+    (hloops : ∀ loop ∈ loops, walkRise cs.length (buildGraph cs) (edgeRise kind s cs (buildGraph cs) loops im)
+      (loopPairs loop) = 0)
+    (idx : Nat) (c : Cpt K) (hc : cs[idx]? = some c) :
+    ∃ n0 n1 z v0, nodes2 c = some (n0, n1) ∧ volEq kind s c = some (z, v0) ∧
+      vd (meshSolution kind s cs loops im cert) n0 n1 = z * branchJ (buildGraph cs) loops im idx + v0 := by
+  have hmok := hdef c (List.mem_of_getElem? hc)
+  obtain ⟨_, n0, n1, hn, _⟩ := meshOk_nodes kind s c hmok
+  obtain ⟨z, v0, hvol, _⟩ := meshOk_volEq kind s c hmok
+  refine ⟨n0, n1, z, v0, hn, hvol, ?_⟩
+  have hlt : idx < cs.length := (List.getElem?_eq_some_iff.mp hc).1
+  have hu : edgeRise kind s cs (buildGraph cs) loops im idx = -(z * branchJ (buildGraph cs) loops im idx + v0) := by
+    simp [edgeRise, hc, hvol]
+  have hkvl := kvl_complete (buildGraph cs) cs.length loops cert (edgeRise kind s cs (buildGraph cs) loops im)
+    hbasis hloops
+  obtain ⟨e, he, hecpt, hea, heb⟩ := buildGraph_has cs idx c n0 n1 hc hn
+  have h1 := hkvl e he
+  rw [edgeUnit_sum e _ _ idx c hecpt hlt, hu, hea] at h1
+  simp only [vd, volt_meshSolution, potential]
+  rcases heb with heb | ⟨w, hw, hwc, hwa, hwb⟩
+  · rw [heb] at h1
+    linear_combination h1
+  · have h2 := hkvl w hw
+    rw [edgeUnit_sum_wire w _ _ hwc, hwa, hwb] at h2
+    linear_combination h1 + h2
+
+/-- **the mesh solution obeys the circuit laws, component by component** -/
+theorem meshSolution_cpt [DecidableEq K] (kind : Kind) (s : K) (cs : List (Cpt K)) (loops : List (List GNode))
+    (im : Nat → K) (cert : BasisCert K) (hdef : ∀ c ∈ cs, MeshOk kind s c)
+    (hwf : (cs.flatMap owned).Nodup)
+    (hbasis : checkBasis cs loops cert = true)
+    (hloops : ∀ loop ∈ loops, walkRise cs.length (buildGraph cs) (edgeRise kind s cs (buildGraph cs) loops im)
+      (loopPairs loop) = 0)
+    (idx : Nat) (c : Cpt K) (hc : cs[idx]? = some c) :
+    (∀ k, outflow kind s (meshSolution kind s cs loops im cert) k c =
+        -(branchJ (buildGraph cs) loops im idx * cptW cs k idx)) ∧
+    (∀ p ∈ laws kind s (meshSolution kind s cs loops im cert) c, p.2 = 0) ∧
+    (isV c = false → through kind s (meshSolution kind s cs loops im cert) c = branchJ (buildGraph cs) loops im idx) := by
+  obtain ⟨n0, n1, z, v0, hn, hvol, hvd⟩ := meshSolution_vd kind s cs loops im cert hdef hbasis hloops idx c hc
+  have hbr : ∀ m ∈ owned c, meshSolution kind s cs loops im cert (br m) = branchJ (buildGraph cs) loops im idx := by
+    intro m hm
+    simp [meshSolution, ownerIdx_eq cs hwf idx c hc m hm]
+  obtain ⟨h1, h2, h3⟩ := cpt_laws kind s _ c _ n0 n1 z v0 (hdef c (List.mem_of_getElem? hc)) hn hvol hvd hbr
+  refine ⟨fun k => ?_, h2, h3⟩
+  rw [h1 k]
+  simp only [twoTerm, cptW, hc, hn]
+  split_ifs <;> ring
+
+/-- **KCL** for the mesh solution at every node -/
+theorem meshSolution_kcl [DecidableEq K] (kind : Kind) (s : K) (cs : List (Cpt K)) (loops : List (List GNode))
+    (im : Nat → K) (cert : BasisCert K) (hdef : ∀ c ∈ cs, MeshOk kind s c)
+    (hwf : (cs.flatMap owned).Nodup)
+    (hcyc : ∀ loop ∈ loops, isSimpleCycle (buildGraph cs) loop = true)
+    (hbasis : checkBasis cs loops cert = true)
+    (hloops : ∀ loop ∈ loops, walkRise cs.length (buildGraph cs) (edgeRise kind s cs (buildGraph cs) loops im)
+      (loopPairs loop) = 0) (k : Nat) :
+    lsum (cs.map (outflow kind s (meshSolution kind s cs loops im cert) k)) = 0 := by
+  rw [lsum_map_eq_sumTo]
+  have h1 : ∀ i, i < cs.length →
+      ((cs[i]?).map (outflow kind s (meshSolution kind s cs loops im cert) k)).getD 0 = -(branchJ (buildGraph cs) loops im i * cptW cs k i) := by
+    intro i hi
+    have hc : cs[i]? = some cs[i] := List.getElem?_eq_getElem hi
+    rw [hc]
+    simp only [Option.map_some, Option.getD_some]
+    exact (meshSolution_cpt kind s cs loops im cert hdef hwf hbasis hloops i _ hc).1 k
+  rw [sumTo_congr _ _ _ h1]
+  have := kcl_telescope kind s cs hdef loops hcyc im k
+  have h2 : sumTo cs.length (fun i => -(branchJ (buildGraph cs) loops im i * cptW cs k i))
+      = (-1) * sumTo cs.length (fun i => branchJ (buildGraph cs) loops im i * cptW cs k i) := by
+    rw [← sumTo_mul_left]; apply sumTo_congr; intro i _; ring
+  rw [h2, this, mul_zero]
+
+
+/-! ### concrete circuits for the non-vacuity examples of Props/C15Mesh.lean -/
+
+/-- certificate for `exCkt` (V1 1 0 6; R1 1 2 3; R2 2 0 5) with the loop 0-1-2: walks 0, 0-1, 0-1-2; the edges of
+    V1 and R1 lie on the walks (coefficient 0), R2 closes the loop (coefficient 1) -/
+def exCert : BasisCert ℚ :=
+  ⟨[(.real 0, [.real 0]), (.real 1, [.real 0, .real 1]), (.real 2, [.real 0, .real 1, .real 2])], [[0], [0], [1]]⟩
+
+theorem exCert_ok : checkBasis exCkt [exLoop] exCert = true := by decide +kernel
+
+theorem exMeshEq : ∀ loop ∈ [exLoop], ∀ f, meshEq true .dc (0 : ℚ) (buildGraph exCkt) [exLoop] loop = some f →
+    f.eval (fun _ => 3/4) = 0 := by
+  intro loop hl f hf
+  simp only [List.mem_singleton] at hl
+  subst hl
+  have : (meshEq true .dc (0 : ℚ) (buildGraph exCkt) [exLoop] exLoop).map (MeshForm.eval (fun _ => 3/4)) = some 0 := by
+    decide +kernel
+  rw [hf] at this
+  simpa using this
+
+/-- a circuit with a parallel component (dummy node `*0` in front of R3, wired to node 0):
+    V1 1 0 6; R1 1 2 3; R2 2 0 5; R3 2 0 7; meshes 0-1-2 and 0-2-*0 with currents 72/71 and 30/71 -/
+def parCkt : List (Cpt ℚ) := [.V 1 0 0 6, .R 1 2 3, .R 2 0 5, .R 2 0 7]
+def parLoops : List (List GNode) := [[.real 0, .real 1, .real 2], [.real 0, .real 2, .dummy 0 0]]
+def parCert : BasisCert ℚ :=
+  ⟨[(.real 0, [.real 0]), (.real 1, [.real 0, .real 1]), (.real 2, [.real 0, .real 1, .real 2]),
+    (.dummy 0 0, [.real 0, .real 1, .real 2, .dummy 0 0])],
+   [[0, 0], [0, 0], [1, 0], [0, 0], [1, 1]]⟩
+def parIm : Nat → ℚ := fun m => if m = 0 then 72/71 else 30/71
+
+theorem parLoops_cycles : ∀ loop ∈ parLoops, isSimpleCycle (buildGraph parCkt) loop = true := by decide
+theorem parCert_ok : checkBasis parCkt parLoops parCert = true := by decide +kernel
+theorem parMeshEq : ∀ loop ∈ parLoops, ∀ f, meshEq true .dc (0 : ℚ) (buildGraph parCkt) parLoops loop = some f →
+    f.eval parIm = 0 := by
+  have h : ∀ loop ∈ parLoops,
+      (meshEq true .dc (0 : ℚ) (buildGraph parCkt) parLoops loop).map (MeshForm.eval parIm) = some 0 := by
+    decide +kernel
+  intro loop hl f hf
+  have := h loop hl
+  rw [hf] at this
+  simpa using this
 
 end Lcapy.Formulations
